@@ -7,9 +7,9 @@ use crate::refmodel::Strat;
 use crate::report::Report;
 use serde_json::{json, Value};
 
-pub const BAD_PATHS: [&str; 34] = [
+pub const BAD_PATHS: [&str; 40] = [
     "a", "", "$", "$a", "a.b", " $.a", "$.zz", "$.a[7]", "$.a[0", "$.a]", "$.a[00]", "$.a[0]b", "$.a..b", "$.a.", "$.[0]", "$..a", "$.a[-1]", "$.a[ 0]",
-    "$.iss", "$.exp", "$.a[+0]", "$.a[01]", "$.a[0x0]", "$.a[0 ]", "$.a[\u{660}]", "$.a[0][+0]", "$.b[-0]", "$.a[1e0]", "$.", "$..", "$.[", "$.]", "$.a.a.a.a.a.a", "$.b[0][0][0]",
+    "$.iss", "$.exp", "$.a..a", "$.a...a", "$.b..a", "$.a..[0]", "$.a.[0]..a", "$.a.a.", "$.a[+0]", "$.a[01]", "$.a[0x0]", "$.a[0 ]", "$.a[\u{660}]", "$.a[0][+0]", "$.b[-0]", "$.a[1e0]", "$.", "$..", "$.[", "$.]", "$.a.a.a.a.a.a", "$.b[0][0][0]",
 ];
 
 fn cfgs8() -> Vec<Cfg> {
@@ -191,6 +191,36 @@ pub fn run(rep: &Report) {
         }
         out
     };
+    // every ORDER of the path list (the hidden set is a function of the set of paths, not of their order)
+    let permuted = |u: &Value| -> Vec<Strat> {
+        fn perms(v: &[String]) -> Vec<Vec<String>> {
+            if v.len() <= 1 {
+                return vec![v.to_vec()];
+            }
+            let mut out = vec![];
+            for i in 0..v.len() {
+                let mut rest = v.to_vec();
+                let x = rest.remove(i);
+                for mut p in perms(&rest) {
+                    p.insert(0, x.clone());
+                    out.push(p);
+                }
+            }
+            out
+        }
+        let mut out = vec![];
+        for s in pipeline::all_strategies(u) {
+            if let Strat::Custom(p) = s {
+                if p.len() >= 2 && p.len() <= 4 {
+                    for q in perms(&p).into_iter().skip(1) {
+                        out.push(Strat::Custom(q));
+                    }
+                }
+            }
+        }
+        out
+    };
+    run_structures(rep, &format!("S({},3) x every Custom subset of 2..4 paths in every order", if quick { 3 } else { 4 }), &if quick { trees(3, 3) } else { trees(4, 3) }, &permuted, &|_| vec![Cfg::CHEAP], checks, false);
     run_structures(rep, "S(3,3) x every Custom subset with the path list reversed / every path twice / all notations of each listed node together", &trees(3, 3), &reordered, &two, checks, false);
     run_structures(rep, "S(2,2) x every Custom subset + one malformed/dangling path (26 of them, front and back)", &small, &with_bad, &two, checks, false);
     // alphabets
@@ -204,6 +234,7 @@ pub fn run(rep: &Report) {
     let pool = ["a", "ab", "abc", "b"];
     let nt = named_trees(3, 3, &pool);
     run_structures(rep, "name-prefix family: S(3,3) with member names drawn from {a, ab, abc, b} in every sibling-distinct way x all strategies", &nt, &all_strats, &two, checks, false);
+    run_structures(rep, "equal siblings: identical elements / members side by side x all strategies", &equal_sibling_trees(), &all_strats, &c8, checks, false);
     run_structures(rep, "count sweep: every member / element count 0..40 and around 64, 128, 256 x {NoSD, Top, All}", &count_sweep_trees(), &count_sweep_strategies, &c8, checks, false);
     run_structures(rep, "wide containers: arrays / objects of 11, 100, 300 entries x 6 strategies", &wide_trees(), &wide_strategies, &c8, checks, false);
     let nokey = |_: usize| vec![Cfg::CHEAP, Cfg { fmt: Fmt::Json, alg: Alg::HS256, decoys: true, hk: Hk::None }];
